@@ -223,15 +223,15 @@ namespace sim
 			Protocol const p = Protocol::v4();
 			(void)p;
 #ifdef IP_DONTFRAG
-			if (opt.name(p) == IP_DONTFRAG)
+			if (opt.level(p) == IPPROTO_IP && opt.name(p) == IP_DONTFRAG)
 				m_dont_fragment = *reinterpret_cast<int const*>(opt.data(p)) != 0;
 #endif
 #ifdef IP_DONTFRAGMENT
-			if (opt.name(p) == IP_DONTFRAGMENT)
+			if (opt.level(p) == IPPROTO_IP && opt.name(p) == IP_DONTFRAGMENT)
 				m_dont_fragment = *reinterpret_cast<int const*>(opt.data(p)) != 0;
 #endif
 #ifdef IP_MTU_DISCOVER
-			if (opt.name(p) == IP_MTU_DISCOVER)
+			if (opt.level(p) == IPPROTO_IP && opt.name(p) == IP_MTU_DISCOVER)
 				m_dont_fragment = *reinterpret_cast<int const*>(opt.data(p)) == IP_PMTUDISC_DO;
 #endif
 		}
